@@ -41,9 +41,13 @@ def gen_triple(rng, tier):
             top = 100 if r < 0.7 else (200 if r < 0.95 else 300)
         sizes = [int(rng.integers(10, top + 1)) for _ in range(3)]
     scale = float(rng.choice([1e-3, 0.1, 1, 1, 1, 10, 1e3]))
-    style = str(rng.choice(["indep", "jitter", "cluster", "grid", "mixed", "repaired"]))
+    style = str(rng.choice(["indep", "jitter", "cluster", "grid", "mixed", "repaired", "decimal"]))
     if style == "grid":
         X, Y, Z = (gen.diagram(rng, n, "grid", scale) for n in sizes)
+    elif style == "decimal":
+        sizes = [max(1, s // 6) for s in sizes]
+        X, Y, Z = (gen.diagram(rng, n, "decimal", scale) for n in sizes)
+        Y = gen.entangle(rng, X, Y); Z = gen.entangle(rng, Y, Z)
     elif style == "cluster":
         X, Y, Z = (gen.diagram(rng, n, "cluster", scale) for n in sizes)
     elif style == "repaired":
